@@ -1,5 +1,592 @@
 package lint
 
-// Thorough adds the thorough-tier work to a report (sensitivity sweep etc.).
+import (
+	"bytes"
+	"encoding/json"
+	"fmt"
+	"go/ast"
+	"go/parser"
+	"go/printer"
+	"go/token"
+	"math/rand"
+	"os"
+	"os/exec"
+	"path/filepath"
+	"sort"
+	"strings"
+	"sync"
+	"time"
+)
+
+// Thorough adds the thorough-tier work to a report (DESIGN §2.5):
+//
+//	(a) the rules of the properties this one is stated in terms of (done by the driver: spec.Thorough);
+//	(b) the second build configuration (GOARCH=386): the analysed file set must not differ;
+//	(c) a sensitivity sweep: syntactic variants of the CURRENT tree are derived inside the functions the
+//	    property's obligations live in (relational operator changed, conjunct dropped, condition negated,
+//	    statement deleted), each variant is type-checked and analysed in a separate process, and the sweep
+//	    records which variants the property's rules notice. Nothing is executed. A variant that survives is
+//	    not a violation (many are behaviour-preserving or affect liveness only); survivors are listed so
+//	    that blind spots of the rules are visible.
 func Thorough(p *Program, rep *PropertyReport, spec *PropertySpec, root string) {
+	rep.Extra["second_build_configuration"] = secondConfig(p)
+	if rep.ExitCode == 1 {
+		rep.Extra["sensitivity_sweep"] = "skipped: the main analysis already reports a violation"
+		return
+	}
+	seed := int64(1)
+	if v := os.Getenv("VERIF_SEED"); v != "" {
+		fmt.Sscan(v, &seed)
+	}
+	rep.Extra["sensitivity_sweep"] = sweep(p, rep, spec, seed)
+}
+
+// secondConfig compares the Go file sets of the module under the default GOARCH and under 386.
+func secondConfig(p *Program) map[string]interface{} {
+	list := func(arch string) (string, error) {
+		cmd := exec.Command("go", "list", "-f", "{{.ImportPath}}: {{.GoFiles}}", "./...")
+		cmd.Dir = p.RepoDir
+		cmd.Env = append(os.Environ(), "GOFLAGS=-mod=mod", "GOPROXY=off", "GOSUMDB=off", "GOWORK=off", "GOTOOLCHAIN=local")
+		if arch != "" {
+			cmd.Env = append(cmd.Env, "GOARCH="+arch)
+		}
+		out, err := cmd.Output()
+		return string(out), err
+	}
+	a, err1 := list("")
+	b, err2 := list("386")
+	res := map[string]interface{}{"configurations": []string{"default", "GOARCH=386"}}
+	if err1 != nil || err2 != nil {
+		res["result"] = fmt.Sprintf("could not list files: %v %v", err1, err2)
+		return res
+	}
+	res["same_file_set"] = a == b
+	res["packages"] = strings.Count(a, "\n")
+	return res
+}
+
+type variant struct {
+	File, Func, Op, Desc string
+	Line                 int
+	src                  []byte
+}
+
+type variantResult struct {
+	Variant  string `json:"variant"`
+	Outcome  string `json:"outcome"` // violation | undecided | survived | does-not-compile
+	Reported string `json:"reported,omitempty"`
+}
+
+// sweep derives variants and analyses them.
+func sweep(p *Program, rep *PropertyReport, spec *PropertySpec, seed int64) map[string]interface{} {
+	start := time.Now()
+	// functions the obligations live in: file -> set of lines
+	lines := map[string]map[int]bool{}
+	own := map[string]bool{}
+	for _, r := range spec.Rules {
+		own[r] = true
+	}
+	for _, rr := range rep.Rules {
+		if !own[rr.Rule] {
+			continue // rules borrowed from related properties do not widen the sweep
+		}
+		for _, o := range rr.Obligations {
+			i := strings.LastIndex(o.Pos, ":")
+			if i < 0 {
+				continue
+			}
+			var ln int
+			fmt.Sscan(o.Pos[i+1:], &ln)
+			f := o.Pos[:i]
+			if lines[f] == nil {
+				lines[f] = map[int]bool{}
+			}
+			lines[f][ln] = true
+		}
+	}
+	var vars []variant
+	var files []string
+	for f := range lines {
+		files = append(files, f)
+	}
+	sort.Strings(files)
+	for _, f := range files {
+		vars = append(vars, variantsOf(filepath.Join(p.RepoDir, f), f, lines[f])...)
+	}
+	total := len(vars)
+	// deterministic sample
+	max := 96
+	if v := os.Getenv("VERIF_SWEEP_MAX"); v != "" {
+		fmt.Sscan(v, &max)
+	}
+	rnd := rand.New(rand.NewSource(seed))
+	rnd.Shuffle(len(vars), func(i, j int) { vars[i], vars[j] = vars[j], vars[i] })
+	if len(vars) > max {
+		vars = vars[:max]
+	}
+	sort.Slice(vars, func(i, j int) bool {
+		if vars[i].File != vars[j].File {
+			return vars[i].File < vars[j].File
+		}
+		if vars[i].Line != vars[j].Line {
+			return vars[i].Line < vars[j].Line
+		}
+		return vars[i].Desc < vars[j].Desc
+	})
+	exe, _ := os.Executable()
+	results := make([]variantResult, len(vars))
+	var wg sync.WaitGroup
+	sem := make(chan struct{}, 12)
+	for i := range vars {
+		wg.Add(1)
+		go func(i int) {
+			defer wg.Done()
+			sem <- struct{}{}
+			defer func() { <-sem }()
+			results[i] = runVariant(p, exe, rep.Property, vars[i])
+		}(i)
+	}
+	wg.Wait()
+	counts := map[string]int{}
+	byOp := map[string]map[string]int{}
+	var survivors, samples []interface{}
+	for i, r := range results {
+		counts[r.Outcome]++
+		if byOp[vars[i].Op] == nil {
+			byOp[vars[i].Op] = map[string]int{}
+		}
+		byOp[vars[i].Op][r.Outcome]++
+		if r.Outcome == "survived" && len(survivors) < 60 {
+			survivors = append(survivors, r.Variant)
+		}
+		if (r.Outcome == "violation" || r.Outcome == "undecided") && len(samples) < 25 {
+			samples = append(samples, map[string]string{"variant": r.Variant, "outcome": r.Outcome, "reported": r.Reported})
+		}
+	}
+	return map[string]interface{}{
+		"what": "syntactic variants of the current /repo tree inside the functions this property's obligations live in; each variant type-checked (go build) and analysed by the same rules in a separate process; nothing is executed. " +
+			"A surviving variant is not a violation: it is either behaviour-preserving, affects a clause this property's rules do not decide, or is a blind spot — survivors are listed for inspection.",
+		"operators":             []string{"relop: relational operator weakened/flipped", "dropconj: one operand of && / || dropped", "negate: if condition negated", "delstmt: call/assignment/inc-dec statement deleted"},
+		"variants_possible":     total,
+		"variants_analysed":     len(vars),
+		"noticed_as_violation":  counts["violation"],
+		"noticed_as_undecided":  counts["undecided"],
+		"survived":              counts["survived"],
+		"did_not_compile":       counts["does-not-compile"],
+		"by_operator":           byOp,
+		"survivors":             survivors,
+		"noticed_samples":       samples,
+		"seed":                  seed,
+		"wall_s":                time.Since(start).Seconds(),
+		"variants_distinct_key": "file:line:operator:description",
+	}
+}
+
+func runVariant(p *Program, exe, property string, v variant) variantResult {
+	res := variantResult{Variant: fmt.Sprintf("%s:%d %s [%s] in %s", v.File, v.Line, v.Desc, v.Op, v.Func)}
+	dir, err := os.MkdirTemp("", "raftlint-sweep-")
+	if err != nil {
+		res.Outcome = "does-not-compile"
+		return res
+	}
+	defer os.RemoveAll(dir)
+	if err := copyTree(p.RepoDir, dir); err != nil {
+		res.Outcome = "does-not-compile"
+		return res
+	}
+	if err := os.WriteFile(filepath.Join(dir, v.File), v.src, 0o644); err != nil {
+		res.Outcome = "does-not-compile"
+		return res
+	}
+	env := append(os.Environ(), "GOFLAGS=-mod=mod", "GOPROXY=off", "GOSUMDB=off", "GOWORK=off", "GOTOOLCHAIN=local")
+	build := exec.Command("go", "build", "./...")
+	build.Dir = dir
+	build.Env = env
+	if err := build.Run(); err != nil {
+		res.Outcome = "does-not-compile"
+		return res
+	}
+	cmd := exec.Command(exe, "-repo", dir, "-no-evidence", "-property", property, "-tier", "quick", "-json")
+	cmd.Env = env
+	var out bytes.Buffer
+	cmd.Stdout = &out
+	err = cmd.Run()
+	code := 0
+	if ee, ok := err.(*exec.ExitError); ok {
+		code = ee.ExitCode()
+	} else if err != nil {
+		code = 2
+	}
+	var obs []Obligation
+	_ = json.Unmarshal(out.Bytes(), &obs)
+	for _, o := range obs {
+		if o.Verdict == Violated || o.Verdict == Undecided || o.Verdict == AnchorLost {
+			res.Reported = o.Rule + ": " + o.Construct
+			break
+		}
+	}
+	switch code {
+	case 0:
+		res.Outcome = "survived"
+	case 1:
+		res.Outcome = "violation"
+	default:
+		res.Outcome = "undecided"
+	}
+	return res
+}
+
+func copyTree(src, dst string) error {
+	return filepath.Walk(src, func(path string, info os.FileInfo, err error) error {
+		if err != nil {
+			return err
+		}
+		rel, _ := filepath.Rel(src, path)
+		if rel == "." {
+			return nil
+		}
+		if info.IsDir() {
+			if info.Name() == ".git" || info.Name() == "assets" {
+				return filepath.SkipDir
+			}
+			return os.MkdirAll(filepath.Join(dst, rel), 0o755)
+		}
+		if strings.HasSuffix(rel, "_test.go") || !info.Mode().IsRegular() {
+			return nil
+		}
+		data, err := os.ReadFile(path)
+		if err != nil {
+			return err
+		}
+		return os.WriteFile(filepath.Join(dst, rel), data, 0o644)
+	})
+}
+
+// variantsOf generates one-edit variants of the functions of file that contain one of the lines.
+func variantsOf(path, rel string, want map[int]bool) []variant {
+	src, err := os.ReadFile(path)
+	if err != nil {
+		return nil
+	}
+	var out []variant
+	// enumerate edit sites on a first parse; re-parse for every edit so that edits do not accumulate
+	fset := token.NewFileSet()
+	file, err := parser.ParseFile(fset, path, src, parser.ParseComments)
+	if err != nil {
+		return nil
+	}
+	type site struct {
+		fn   string
+		idx  int // ordinal of the node in a deterministic walk of the function
+		op   string
+		alt  int
+		line int
+		desc string
+	}
+	var sites []site
+	for _, d := range file.Decls {
+		fd, ok := d.(*ast.FuncDecl)
+		if !ok || fd.Body == nil {
+			continue
+		}
+		lo, hi := fset.Position(fd.Pos()).Line, fset.Position(fd.End()).Line
+		hit := false
+		for l := range want {
+			if l >= lo && l <= hi {
+				hit = true
+			}
+		}
+		if !hit {
+			continue
+		}
+		name := fd.Name.Name
+		idx := 0
+		ast.Inspect(fd.Body, func(n ast.Node) bool {
+			if n == nil {
+				return false
+			}
+			if isLoggingCall(n) {
+				return false
+			}
+			idx++
+			line := fset.Position(n.Pos()).Line
+			switch x := n.(type) {
+			case *ast.BinaryExpr:
+				switch x.Op {
+				case token.LSS, token.LEQ, token.GTR, token.GEQ, token.EQL, token.NEQ:
+					if isNilCompare(x) {
+						return true
+					}
+					sites = append(sites, site{name, idx, "relop", 0, line, exprString(fset, x) + " : " + x.Op.String() + " -> " + relAlt(x.Op).String()})
+				case token.LAND, token.LOR:
+					sites = append(sites, site{name, idx, "dropconj", 0, line, "keep only left operand of " + exprString(fset, x)})
+					sites = append(sites, site{name, idx, "dropconj", 1, line, "keep only right operand of " + exprString(fset, x)})
+				}
+			case *ast.IfStmt:
+				if !isErrCheck(x.Cond) {
+					sites = append(sites, site{name, idx, "negate", 0, line, "negate condition " + exprString(fset, x.Cond)})
+				}
+			case *ast.ExprStmt:
+				if _, ok := x.X.(*ast.CallExpr); ok {
+					sites = append(sites, site{name, idx, "delstmt", 0, line, "delete " + exprString(fset, x.X)})
+				}
+			case *ast.AssignStmt:
+				if x.Tok == token.ASSIGN || x.Tok == token.ADD_ASSIGN {
+					sites = append(sites, site{name, idx, "delstmt", 0, line, "delete " + stmtString(fset, x)})
+				}
+			case *ast.IncDecStmt:
+				sites = append(sites, site{name, idx, "delstmt", 0, line, "delete " + stmtString(fset, x)})
+			}
+			return true
+		})
+	}
+	for _, s := range sites {
+		fs := token.NewFileSet()
+		f2, err := parser.ParseFile(fs, path, src, parser.ParseComments)
+		if err != nil {
+			continue
+		}
+		applied := false
+		for _, d := range f2.Decls {
+			fd, ok := d.(*ast.FuncDecl)
+			if !ok || fd.Body == nil || fd.Name.Name != s.fn {
+				continue
+			}
+			idx := 0
+			var parentStack []ast.Node
+			ast.Inspect(fd.Body, func(n ast.Node) bool {
+				if n == nil {
+					parentStack = parentStack[:len(parentStack)-1]
+					return false
+				}
+				if isLoggingCall(n) {
+					return false
+				}
+				idx++
+				if idx == s.idx && !applied {
+					applied = applyEdit(n, parentStack, s.op, s.alt)
+				}
+				parentStack = append(parentStack, n)
+				return true
+			})
+			break
+		}
+		if !applied {
+			continue
+		}
+		var buf bytes.Buffer
+		if err := (&printer.Config{Mode: printer.UseSpaces | printer.TabIndent, Tabwidth: 8}).Fprint(&buf, fs, f2); err != nil {
+			continue
+		}
+		out = append(out, variant{File: rel, Func: s.fn, Op: s.op, Desc: s.desc, Line: s.line, src: buf.Bytes()})
+	}
+	return out
+}
+
+func relAlt(op token.Token) token.Token {
+	switch op {
+	case token.LSS:
+		return token.LEQ
+	case token.LEQ:
+		return token.LSS
+	case token.GTR:
+		return token.GEQ
+	case token.GEQ:
+		return token.GTR
+	case token.EQL:
+		return token.NEQ
+	}
+	return token.EQL
+}
+
+func applyEdit(n ast.Node, parents []ast.Node, op string, alt int) bool {
+	switch op {
+	case "relop":
+		x, ok := n.(*ast.BinaryExpr)
+		if !ok {
+			return false
+		}
+		x.Op = relAlt(x.Op)
+		return true
+	case "dropconj":
+		x, ok := n.(*ast.BinaryExpr)
+		if !ok {
+			return false
+		}
+		keep := x.X
+		if alt == 1 {
+			keep = x.Y
+		}
+		// turn "a && b" into "keep && keep" is ugly; replace in parent instead
+		return replaceExpr(parents, x, keep)
+	case "negate":
+		x, ok := n.(*ast.IfStmt)
+		if !ok {
+			return false
+		}
+		x.Cond = &ast.UnaryExpr{Op: token.NOT, X: &ast.ParenExpr{X: x.Cond}}
+		return true
+	case "delstmt":
+		st, ok := n.(ast.Stmt)
+		if !ok {
+			return false
+		}
+		return deleteStmt(parents, st)
+	}
+	return false
+}
+
+func replaceExpr(parents []ast.Node, old, repl ast.Expr) bool {
+	if len(parents) == 0 {
+		return false
+	}
+	switch p := parents[len(parents)-1].(type) {
+	case *ast.BinaryExpr:
+		if p.X == old {
+			p.X = repl
+			return true
+		}
+		if p.Y == old {
+			p.Y = repl
+			return true
+		}
+	case *ast.ParenExpr:
+		if p.X == old {
+			p.X = repl
+			return true
+		}
+	case *ast.UnaryExpr:
+		if p.X == old {
+			p.X = repl
+			return true
+		}
+	case *ast.IfStmt:
+		if p.Cond == old {
+			p.Cond = repl
+			return true
+		}
+	case *ast.ForStmt:
+		if p.Cond == old {
+			p.Cond = repl
+			return true
+		}
+	case *ast.ReturnStmt:
+		for i, r := range p.Results {
+			if r == old {
+				p.Results[i] = repl
+				return true
+			}
+		}
+	case *ast.AssignStmt:
+		for i, r := range p.Rhs {
+			if r == old {
+				p.Rhs[i] = repl
+				return true
+			}
+		}
+	case *ast.CallExpr:
+		for i, r := range p.Args {
+			if r == old {
+				p.Args[i] = repl
+				return true
+			}
+		}
+	}
+	return false
+}
+
+func deleteStmt(parents []ast.Node, st ast.Stmt) bool {
+	if len(parents) == 0 {
+		return false
+	}
+	var list *[]ast.Stmt
+	switch p := parents[len(parents)-1].(type) {
+	case *ast.BlockStmt:
+		list = &p.List
+	case *ast.CaseClause:
+		list = &p.Body
+	case *ast.CommClause:
+		list = &p.Body
+	}
+	if list == nil {
+		return false
+	}
+	for i, s := range *list {
+		if s == st {
+			*list = append(append([]ast.Stmt{}, (*list)[:i]...), (*list)[i+1:]...)
+			return true
+		}
+	}
+	return false
+}
+
+func isLoggingCall(n ast.Node) bool {
+	var call *ast.CallExpr
+	switch x := n.(type) {
+	case *ast.ExprStmt:
+		call, _ = x.X.(*ast.CallExpr)
+	case *ast.CallExpr:
+		call = x
+	}
+	if call == nil {
+		return false
+	}
+	sel, ok := call.Fun.(*ast.SelectorExpr)
+	if !ok {
+		return false
+	}
+	inner, ok := sel.X.(*ast.SelectorExpr)
+	if !ok || inner.Sel.Name != "logger" {
+		return false
+	}
+	switch sel.Sel.Name {
+	case "Debug", "Debugf", "Info", "Infof", "Warn", "Warnf", "Error", "Errorf":
+		return true
+	}
+	return false
+}
+
+func isNilCompare(x *ast.BinaryExpr) bool {
+	for _, e := range []ast.Expr{x.X, x.Y} {
+		if id, ok := e.(*ast.Ident); ok && id.Name == "nil" {
+			return true
+		}
+	}
+	return false
+}
+
+func isErrCheck(e ast.Expr) bool {
+	b, ok := e.(*ast.BinaryExpr)
+	if !ok {
+		return false
+	}
+	if !isNilCompare(b) {
+		return false
+	}
+	for _, x := range []ast.Expr{b.X, b.Y} {
+		if id, ok := x.(*ast.Ident); ok && strings.HasPrefix(strings.ToLower(id.Name), "err") {
+			return true
+		}
+	}
+	return false
+}
+
+func exprString(fset *token.FileSet, e ast.Expr) string {
+	var buf bytes.Buffer
+	_ = printer.Fprint(&buf, fset, e)
+	s := strings.Join(strings.Fields(buf.String()), " ")
+	if len(s) > 90 {
+		s = s[:90] + "…"
+	}
+	return s
+}
+
+func stmtString(fset *token.FileSet, s ast.Stmt) string {
+	var buf bytes.Buffer
+	_ = printer.Fprint(&buf, fset, s)
+	t := strings.Join(strings.Fields(buf.String()), " ")
+	if len(t) > 90 {
+		t = t[:90] + "…"
+	}
+	return t
 }
